@@ -142,13 +142,13 @@ std::string prop_generate(Tape & t, int size) {
                     }
                     c.f = "rd_open"; c.a = {r, file}; rd_open[r] = true; break;
                 }
-                static const std::vector<std::string> F = {"rd_fsr", "rd_fsr", "rd_stats", "rd_stats", "rd_len", "rd_annos", "rd_utc", "rd_user", "rd_signal", "rd_signals", "rd_s2t", "rd_t2s", "rd_fsr_f32", "rd_close"};
+                static const std::vector<std::string> F = {"rd_fsr", "rd_fsr", "rd_fsr", "rd_stats", "rd_stats", "rd_stats", "rd_len", "rd_annos", "rd_utc", "rd_user", "rd_signal", "rd_signals", "rd_s2t", "rd_t2s", "rd_fsr_f32", "rd_close"};
                 c.f = F[t.below((uint32_t) F.size())];
                 int id = (data_sig >= 0 && t.chance(1, 2)) ? data_sig : gen_id(t, sigs_on_disk);
                 // last argument: 0 = window as given; 1..4 = the executor moves the window to an edge of the signal once its length is known
                 // (1: ends exactly at the last sample, 2: ends one sample behind it, 3: starts at length, 4: longer than the signal)
-                if (c.f == "rd_fsr" || c.f == "rd_fsr_f32") c.a = {r, id, t.chance(3, 4) ? t.range(0, 300) : gen_i64(t), t.chance(3, 4) ? t.range(0, 300) : gen_i64(t), t.chance(1, 3) ? t.range(1, 4) : 0};
-                else if (c.f == "rd_stats") c.a = {r, id, t.chance(3, 4) ? t.range(0, 300) : gen_i64(t), t.chance(3, 4) ? t.range(1, 200) : gen_i64(t), t.chance(3, 4) ? t.range(1, 30) : gen_i64(t), t.chance(1, 3) ? t.range(1, 4) : 0};
+                if (c.f == "rd_fsr" || c.f == "rd_fsr_f32") c.a = {r, id, t.chance(3, 4) ? t.range(0, 300) : gen_i64(t), t.chance(3, 4) ? t.range(0, 300) : gen_i64(t), t.chance(1, 2) ? t.range(1, 4) : 0};
+                else if (c.f == "rd_stats") c.a = {r, id, t.chance(3, 4) ? t.range(0, 300) : gen_i64(t), t.chance(3, 4) ? t.range(1, 200) : gen_i64(t), t.chance(3, 4) ? t.range(1, 30) : gen_i64(t), t.chance(1, 2) ? t.range(1, 4) : 0};
                 else if (c.f == "rd_close") { c.a = {r}; rd_open[r] = false; }
                 else c.a = {r, id, gen_i64(t), t.range(0, 3)};
                 break;
